@@ -98,7 +98,12 @@ def components(rng, quick):
             pats = list(range(1 << n))
             if len(pats) > cap:
                 pats = rng.sample(pats, cap)
-            return [torch.tensor([(-m if (v >> j) & 1 else m) for j, m in enumerate(mags)]) for v in pats]
+            out = []
+            for v in pats:
+                mg = list(mags)
+                rng.shuffle(mg)          # the least reliable position differs from member to member
+                out.append(torch.tensor([(-m if (v >> j) & 1 else m) for j, m in enumerate(mg)]))
+            return out
         return f
     C.append(Comp("SyndromeLookupDecoder/Hamming(7,4)", "SyndromeLookupDecoder", lambda: D.SyndromeLookupDecoder(E.HammingCodeEncoder(3)), recv_pool(ham), dense=ball(ham, 2)))
     C.append(Comp("BruteForceMLDecoder/Hamming(7,4)", "BruteForceMLDecoder", lambda: D.BruteForceMLDecoder(E.HammingCodeEncoder(3)), recv_pool(ham), dense=ball(ham, 2)))
